@@ -586,7 +586,9 @@ DIMS_BASIS = _dim_tuples(2, 4, 24)
 @st.composite
 def _names(draw, k):
     # k distinct names in drawn order (st.permutations is biased towards the identity; a unique list is not)
-    return [int(x) for x in draw(st.lists(st.integers(0, 9), min_size=k, max_size=k, unique=True))]
+    # (names are arbitrary distinct integers: mostly 0..9, sometimes a range around zero with negative names)
+    lo = draw(st.sampled_from([0, 0, 0, -4]))
+    return [int(x) for x in draw(st.lists(st.integers(lo, lo + 9 if lo == 0 else 4), min_size=k, max_size=k, unique=True))]
 
 
 @st.composite
